@@ -13,6 +13,8 @@ SPEC = {
          'sinks': {'C09_filter_all': 'filter_judge'}, 'n': {'quick': 900, 'thorough': 60000}},
         {'pkg': 'execute', 'src': 'harness/execute/c09_test.go', 'test': 'TestVerif_C09_pending', 'fakes': True,
          'sinks': {'C09_pending': 'pend_judge'}, 'n': {'quick': 400, 'thorough': 12000}},
+        {'pkg': 'execute', 'src': 'harness/execute/c09_test.go', 'test': 'TestVerif_C09_history', 'fakes': True,
+         'sinks': {'C09_history': 'hist_judge'}, 'n': {'quick': 40, 'thorough': 1200}},
     ],
     'rule': 'layouts of 1..6 commit reports of one chain, lengths 1..8, adjacent / holes / mixed / near 2^64 / overlapping / '
             'next-starts-on-previous-end, given in order or shuffled; executed sets none / all / random 30% / 70% / prefix / suffix / '
